@@ -67,6 +67,7 @@ func c01Case(w *rt.W, st *c01State, y int64, m, d int, slow bool) {
 	wantB := ref.DateText(y, m, d, true)
 
 	// ---- output paths ----
+	foreignActivity(int(y)+31*m+d, "date") // an ID, a size, a numeral formatted or refused right before
 	outE, errE := date.DefaultFormatter(nil, dt, 0)
 	outB, errB := date.DefaultFormatter(nil, dt, date.FormatBasic)
 	w.Eval(2)
